@@ -1,4 +1,4 @@
-SPECIFICATION GSpecX
+SPECIFICATION GSpecXN
 CONSTANTS
   PRICE <- GenPriceNonPos
   QTY = {1, 2}
